@@ -337,9 +337,28 @@ pub fn ref_gens_cached<P: G>(n: usize, parties: usize) -> Arc<(Vec<P>, Vec<P>)> 
     v
 }
 
-/// Reference statement for a library statement: bit length, commitment generators, commitments and promises are the
-/// statement's public data; the vector generators come from the reference derivation (not from the library object).
+/// Reference statement for a library statement: bit length, commitment generators, vector generators, commitments and
+/// promises are the statement's public data. (That those generators are the documented derivation is C11 / C19's
+/// business and is checked there against `ref_gens`; every other check evaluates the relation over the generators the
+/// parameter object actually holds, so that it decides its own property only.)
 pub fn ref_statement<P: G>(st: &RangeStatement<P>) -> RefStatement<P> {
+    let n = st.generators.bit_length();
+    let m = st.commitments.len();
+    let gi: Vec<P> = P::gi_vec(&st.generators).into_iter().take(n * m).collect();
+    let hi: Vec<P> = P::hi_vec(&st.generators).into_iter().take(n * m).collect();
+    RefStatement {
+        n,
+        h: st.generators.h_base().clone(),
+        g: st.generators.g_bases().to_vec(),
+        gi,
+        hi,
+        commitments: st.commitments.clone(),
+        promises: st.minimum_value_promises.clone(),
+    }
+}
+
+/// Reference statement over the independently derived generators (C19: interoperability with the released protocol)
+pub fn ref_statement_indep<P: G>(st: &RangeStatement<P>) -> RefStatement<P> {
     let n = st.generators.bit_length();
     let m = st.commitments.len();
     let gens = ref_gens_cached::<P>(n, m);
